@@ -106,7 +106,8 @@ theorem parseBlock_ok (cfg : Cfg) (d : Decoder) (crc : Checksum) (h : BlockHeade
     declared length, and its entries are exactly the parse of the decoded bytes -/
 theorem readNextBlock_sound (cfg : Cfg) (d : Decoder) (crc : Checksum) (rest : Bytes) (es : List Entry)
     (rest' : Bytes) (h : readNextBlock cfg d crc rest = .ok es rest') : Accepted cfg d crc rest es rest' := by
-  unfold readNextBlock at h
+  have h := readNextBlock_ok_core h
+  unfold readNextBlockCore at h
   simp only [shorterThan_eq, decide_eq_true_eq] at h
   split at h
   · cases h
@@ -123,13 +124,14 @@ theorem readNextBlock_sound (cfg : Cfg) (d : Decoder) (crc : Checksum) (rest : B
           obtain ⟨h1, _, h3⟩ := parseBlock_ok cfg d crc _ _ _ hp
           exact ⟨by omega, by omega, rfl, h1, h3⟩
 
-/-- a block whose compressed bytes do not match the stored checksum is reported, never decoded -/
-theorem readNextBlock_crc_mismatch (cfg : Cfg) (d : Decoder) (crc : Checksum) (rest : Bytes)
+/-- a block whose compressed bytes do not match the stored checksum is never decoded: the core
+    reader reports it -/
+theorem readNextBlockCore_crc_mismatch (cfg : Cfg) (d : Decoder) (crc : Checksum) (rest : Bytes)
     (hv : cfg.validatesCrc = true) (h16 : 16 ≤ rest.length)
     (hav : (decodeBlockHeader rest).csize ≤ (rest.drop 16).length) (hpos : 0 < (decodeBlockHeader rest).csize)
     (hne : (crc ((rest.drop 16).take (decodeBlockHeader rest).csize)).toNat ≠ (decodeBlockHeader rest).crc) :
-    readNextBlock cfg d crc rest = .err .crc := by
-  unfold readNextBlock
+    readNextBlockCore cfg d crc rest = .err .crc := by
+  unfold readNextBlockCore
   simp only [shorterThan_eq, decide_eq_true_eq]
   rw [if_neg (by omega)]
   have hnon : (rest.drop 16).isEmpty = false := by
@@ -142,6 +144,24 @@ theorem readNextBlock_crc_mismatch (cfg : Cfg) (d : Decoder) (crc : Checksum) (r
     unfold parseBlock
     simp [hv, hne]
   rw [this]
+
+/-- … and `readNextBlock` reports it or (zero-filled tail) takes it for the end of the data; it
+    never returns entries for it -/
+theorem readNextBlock_crc_mismatch (cfg : Cfg) (d : Decoder) (crc : Checksum) (rest : Bytes)
+    (hv : cfg.validatesCrc = true) (h16 : 16 ≤ rest.length)
+    (hav : (decodeBlockHeader rest).csize ≤ (rest.drop 16).length) (hpos : 0 < (decodeBlockHeader rest).csize)
+    (hne : (crc ((rest.drop 16).take (decodeBlockHeader rest).csize)).toNat ≠ (decodeBlockHeader rest).crc) :
+    readNextBlock cfg d crc rest = .err .crc ∨ readNextBlock cfg d crc rest = .eof :=
+  readNextBlock_of_core_err (readNextBlockCore_crc_mismatch cfg d crc rest hv h16 hav hpos hne)
+
+/-- without the zero-tail rule it is always reported -/
+theorem readNextBlock_crc_mismatch_strict (cfg : Cfg) (d : Decoder) (crc : Checksum) (rest : Bytes)
+    (hv : cfg.validatesCrc = true) (ht : cfg.zeroTailIsEOF = false) (h16 : 16 ≤ rest.length)
+    (hav : (decodeBlockHeader rest).csize ≤ (rest.drop 16).length) (hpos : 0 < (decodeBlockHeader rest).csize)
+    (hne : (crc ((rest.drop 16).take (decodeBlockHeader rest).csize)).toNat ≠ (decodeBlockHeader rest).crc) :
+    readNextBlock cfg d crc rest = .err .crc :=
+  readNextBlock_of_core_err' (readNextBlockCore_crc_mismatch cfg d crc rest hv h16 hav hpos hne)
+    (fun _ => by omega) ht
 
 /-! ### Allocation stays proportional to the file -/
 
@@ -245,7 +265,8 @@ theorem blockAlloc_ok_le (cfg : Cfg) (d : Decoder) (crc : Checksum) (rest : Byte
     (hg : AllocGuards cfg) (hs : DecoderSane d) (h : readNextBlock cfg d crc rest = .ok es rest') :
     blockAlloc cfg d crc rest + 321 * rest'.length ≤ 321 * rest.length := by
   have hacc := readNextBlock_sound cfg d crc rest es rest' h
-  unfold readNextBlock at h
+  have h := readNextBlock_ok_core h
+  unfold readNextBlockCore at h
   simp only [shorterThan_eq, decide_eq_true_eq] at h
   split at h
   · cases h
@@ -291,7 +312,8 @@ theorem blockAlloc_le (cfg : Cfg) (d : Decoder) (crc : Checksum) (rest : Bytes)
 
 theorem loadAllocLoop_le (cfg : Cfg) (d : Decoder) (crc : Checksum) (hg : AllocGuards cfg) (hs : DecoderSane d) :
     ∀ (n : Nat) (rest : Bytes), rest.length ≤ n →
-      loadAllocLoop cfg d crc rest ≤ 321 * rest.length + 208 + 3145680 := by
+      loadAllocLoop cfg d crc rest ≤ 321 * rest.length + 208 + 3145680 + 65536 := by
+  have hz : zeroScanAlloc cfg ≤ 65536 := by unfold zeroScanAlloc; split <;> omega
   intro n
   induction n with
   | zero =>
